@@ -224,3 +224,46 @@ def enum_values_compiled(header, names):
     with open(path, "w") as f:
         json.dump(vals, f)
     return vals
+
+
+def dump_text(text, filt, tag="synthetic"):
+    """AST documents of a synthetic translation unit (e.g. one that only includes a repository header)"""
+    import tempfile, shutil
+    os.makedirs(CACHE, exist_ok=True)
+    key = hashlib.sha256((headers_sha() + text + "|" + filt).encode()).hexdigest()[:32]
+    path = os.path.join(CACHE, "syn_" + key + ".json")
+    if os.path.exists(path):
+        with open(path) as f:
+            return json.load(f)
+    d = tempfile.mkdtemp(prefix="ipqverif.syn.", dir=os.environ.get("VERIF_SCRATCH", "/var/tmp"))
+    try:
+        src = os.path.join(d, tag + ".cpp")
+        with open(src, "w") as f:
+            f.write(text)
+        cmd = ["clang++", "-fsyntax-only", "-w"] + build_flags() + ["-Xclang", "-ast-dump=json", "-Xclang", "-ast-dump-filter=" + filt, src]
+        p = subprocess.run(cmd, stdout=subprocess.PIPE, stderr=subprocess.PIPE, timeout=300)
+        if p.returncode != 0:
+            raise Undecided("clang failed on synthetic TU: %s" % p.stderr.decode()[-300:])
+        docs = _parse_docs(p.stdout.decode())
+    finally:
+        shutil.rmtree(d, ignore_errors=True)
+    with open(path, "w") as f:
+        json.dump(docs, f)
+    return docs
+
+
+def class_fields(header, cls):
+    """[(name, type)] of the non-static data members of class `cls` declared in `header`"""
+    docs = dump_text('#include "%s"\n' % header, cls, tag="fields_" + cls)
+    best = None
+    for d in docs:
+        if d.get("kind") == "CXXRecordDecl" and d.get("name") == cls and d.get("completeDefinition"):
+            best = d
+    if best is None:
+        raise Undecided("class %s not found in %s" % (cls, header))
+    out = []
+    for x in best.get("inner", []):
+        if x.get("kind") == "FieldDecl":
+            t = x["type"].get("desugaredQualType") or x["type"]["qualType"]
+            out.append((x.get("name"), t))
+    return out
